@@ -415,14 +415,16 @@ def _features(fn, db):
 
 def _continuation_flag_writes(fn):
     """(statement, derived-from-the-line-end-test?) for every write of the backslash-continuation flag in a scanner;
-    the flag is whatever is assigned from the `\\$` test on the line"""
+    the flag is the state that outlives the call (an attribute or an element of a closure variable) assigned from the
+    `\\$` test on the line, directly or through a local"""
     def is_test(e):
         return any(isinstance(c, ast.Call) and dotted(c.func) == "re.search" and str_value(c.args[0]) is not None and str_value(c.args[0]).replace(" ", "") == "\\\\$" for c in ast.walk(e))
+    locals_ = {s.targets[0].id for s in ast.walk(fn) if isinstance(s, ast.Assign) and isinstance(s.targets[0], ast.Name) and is_test(s.value)}
     derived = []
     for s in ast.walk(fn):
-        if isinstance(s, ast.Assign) and isinstance(s.targets[0], (ast.Subscript, ast.Attribute, ast.Name)):
+        if isinstance(s, ast.Assign) and isinstance(s.targets[0], (ast.Subscript, ast.Attribute)):
             guard = [a for a in ancestors(s) if isinstance(a, ast.If)]
-            if is_test(s.value) or (guard and is_test(guard[0].test) and isinstance(s.value, ast.Constant) and isinstance(s.value.value, bool)):
+            if is_test(s.value) or (isinstance(s.value, ast.Name) and s.value.id in locals_) or (guard and (is_test(guard[0].test) or (isinstance(guard[0].test, ast.Name) and guard[0].test.id in locals_)) and isinstance(s.value, ast.Constant) and isinstance(s.value.value, bool)):
                 derived.append(s)
     flags = {src(s.targets[0]) for s in derived}
     out = [(s, True) for s in derived]
@@ -450,6 +452,12 @@ def remargin_siblings(ctx):
         ctx.check(bool(ws) and (not other or "ordinary-quote" in feats), "continuation-flag:" + side, db.where(other[0]) if other else db.where(fn_),
                   "the %s-side scanner changes the backslash-continuation flag by something else than the line ending in a backslash (`%s`) although it does not recognise ordinary quoted strings: a `#` inside a '...' string that is continued with a backslash is taken for a comment, the next line is re-margined and the string's content changes" % (side, src(other[0]) if other else ""),
                   "continuation flag follows the line end only (%d write(s))" % len(ws))
+        # ... and is brought up to date for every line: a write of it lies on every path to a return
+        from ..engine import cfg as cfgmod
+        gsc = cfgmod.function_cfg(fn_)
+        wn = [x_ for s_, ok_ in ws if ok_ for x_ in gsc.nodes_of(s_)]
+        good, path = gsc.must_pass(gsc.entry, wn, exits=[gsc.exit], kinds=("n",))
+        ctx.check(bool(wn) and good, "continuation-flag-every-line:" + side, db.where(fn_), "the %s-side scanner can return without updating the backslash-continuation flag (%s): the flag of an earlier line survives and the next statement is treated as a continuation (kept at its old margin - it slides into the preceding block)" % (side, gsc.fmt_path(path)), "flag updated on every path")
     shared_helper = any(isinstance(c, ast.Call) and dotted(c.func) in ("in_multi_line", "_in_multi_line", "self._multi_line_scanner") for c in ast.walk(b)) and False
     missing = sorted(fa - fb)
     if missing:
@@ -468,3 +476,55 @@ def remargin_siblings(ctx):
         r1, r2 = const(env_["rx"][1]), const(env_["rx2"][1])
         ok = r1 in ("^[ \\t]*[^# \\t]", "^[ \\t]*[^# \\t\\r\\n]") and r2 in ("^([ \\t]*)", "([ \\t]*)")
     ctx.check(ok, "margin-from-first-code-line", db.where(aw), "the margin is not taken from the first code line", "margin = indentation of the first non-comment line")
+
+
+# positions where Python's grammar does not admit an unparenthesised conditional expression or lambda
+TIGHT_OPERANDS = {"BinOp": ["left", "right"], "UnaryOp": ["operand"], "BoolOp": ["values"], "Compare": ["left", "comparators"], "Attribute": ["value"], "Subscript": ["value"],
+                  "Call": ["func"], "IfExp": ["body", "test"], "Starred": ["value"], "comprehension": ["iter", "ifs"]}
+
+
+@rule("C19.regen-operands", min_instances=8)
+def regen_operands(ctx):
+    """when conditional expressions and lambdas are not written with parentheses of their own, every operand position that cannot hold them bare is written through the parenthesising helper"""
+    db = ctx.db
+    kind = _generator_class(db)
+    if kind == "unparse":
+        ctx.ok("delegated", "", "ast.unparse inserts parentheses by precedence")
+        return
+    meths = _class_methods(db, "_ast_util.SourceGenerator")
+    wrappers = set()
+    for nm, h in meths.items():
+        if isinstance(h, ast.Assign) or nm.startswith("visit_") and nm[6:] in dir(ast) and nm != "visit_operand":
+            continue
+        if any(P.matches(c_, "isinstance($n, (IfExp, Lambda))") or P.matches(c_, "isinstance($n, (Lambda, IfExp))") for c_ in ast.walk(h)) and P.has(h, "self.write('(')") and P.has(h, "self.write(')')"):
+            wrappers.add(nm)
+    own = {}
+    for c in LOOSE:
+        h = meths.get("visit_" + c)
+        writes = [c_ for c_ in ast.walk(h) if isinstance(c_, ast.Call) and dotted(c_.func) == "self.write" and c_.args] if h is not None and not isinstance(h, ast.Assign) else []
+        own[c] = bool(writes) and str(const(writes[0].args[0]) or "").startswith("(") and str(const(writes[-1].args[0]) or "").endswith(")")
+    if all(own.values()):
+        ctx.ok("own-parentheses", "mako/_ast_util.py", "IfExp and Lambda write parentheses of their own")
+        return
+    ctx.check(bool(wrappers), "wrapper", "mako/_ast_util.py", "no helper parenthesises conditional expressions / lambdas used as operands", "helpers: %s" % sorted(wrappers))
+    n = 0
+    for c, fields in TIGHT_OPERANDS.items():
+        h = meths.get("visit_" + c)
+        if h is None or isinstance(h, ast.Assign) or _delegates_to_unparse(h):
+            continue
+        nd = pn(h, 1)
+        for f in fields:
+            plain, wrapped = [], []
+            for c_ in ast.walk(h):
+                if isinstance(c_, ast.Call) and isinstance(c_.func, ast.Attribute) and dotted(c_.func.value) == "self" and c_.args:
+                    acc = access_paths(h, {nd: "node"}, within=[c_.args[0]])
+                    if ("node.%s" % f) in acc or ("node.%s[]" % f) in acc:
+                        if c_.func.attr in wrappers:
+                            wrapped.append(c_)
+                        elif c_.func.attr == "visit":
+                            plain.append(c_)
+            if not plain and not wrapped:
+                continue
+            n += 1
+            ctx.check(not plain, "operand:%s.%s" % (c, f), db.where(plain[0]) if plain else db.where(h), "visit_%s writes node.%s with a plain visit: a conditional expression or lambda there loses its parentheses and the re-emitted expression groups differently (e.g. `(p if a else q) if b else r` becomes `p if a else q if b else r`)" % (c, f), "written through %s" % sorted(wrappers))
+    ctx.require(n >= 6, "operand positions recognised: %d" % n)
